@@ -297,7 +297,7 @@ async def directed_duplicate():
             pass
 
 
-async def transfer_history():
+async def transfer_history(directed=False):
     """the last clause of the statement on real transfers: two local deployments, a source registered on the first, transferred (as a
     link or as a copy) into job directories of the second; job directories are lost and invalidated in between.  Every transfer must
     come from a VALID primary copy: the destination exists, holds the source's content, and is registered once."""
@@ -326,17 +326,18 @@ async def transfer_history():
             dm.register_path(local, src)
             srcs.append((src, f"payload-{k}"))
         jobs = []
-        for step in range(rng.randint(2, 6)):
-            if jobs and rng.random() < 0.4:
+        for step in range(3 if directed else rng.randint(2, 6)):
+            # (directed: transfer, lose and invalidate the copy, transfer the same source again, read-only)
+            if jobs and (step == 1 if directed else rng.random() < 0.4):
                 jd = jobs.pop(rng.randrange(len(jobs)))
                 shutil.rmtree(jd, ignore_errors=True)
                 dm.invalidate_location(site2, jd)
                 trace.append(("job directory lost and invalidated", os.path.basename(jd)))
                 continue
-            src, content = rng.choice(srcs)
+            src, content = srcs[0] if directed else rng.choice(srcs)
             jd = os.path.join(root, "site2", f"job{step}")
             dst = os.path.join(jd, os.path.basename(src))
-            writable = rng.random() < 0.3
+            writable = False if directed else rng.random() < 0.3
             trace.append(("transfer", os.path.basename(src), os.path.basename(jd), "writable" if writable else "read-only"))
             try:
                 await asyncio.wait_for(dm.transfer_data(local, src, [site2], dst, writable=writable), 60)
@@ -368,7 +369,7 @@ async def search(n):
     if await directed_duplicate():
         KNOWN.add("KF-C21-duplicate-registration")
     for i in range(max(6, n // 8)):
-        bad = await transfer_history()
+        bad = await transfer_history(directed=(i == 0))
         if bad:
             return bad
     for i in range(n):
